@@ -116,7 +116,10 @@ def step (line : String) : String :=
     | some ct, some add, some textonly, some forced, some ac, some tbl, some n, some cached, some ae,
       some mimes, some vary =>
       -- the codec of the case: a charset encodes every chunk or none (the table), one token byte per chunk
-      let k : Codec := { enc := fun name _ => if canOf tbl name then some [0] else none, dec := fun _ _ => none }
+      let k : Codec := {
+        enc := fun name _ => if canOf tbl name then some [0] else none
+        dec := fun _ _ => none
+        inc := fun name cs => if canOf tbl name then some (cs.map fun _ => [0]) else none }
       let z : Gzip.Z := { deflate := fun _ _ => [], inflate := fun _ => none }
       match encodeThenGzip k z ⟨ct, add, textonly, false, forced, ac⟩ ae cached mimes 0 0 ⟨vary, none, none⟩
               (List.replicate n ['x']) with
